@@ -58,7 +58,7 @@ def run(tier):
     b = hb.harness_bins("workload", "workload.cpp", cl, tape="sys")
     ev.configs = [n for n, _ in b]
     seeds = [seed()] if tier == "quick" else [seed() * 10 + i for i in range(5)]
-    ncalls = 600 if tier == "quick" else 1500
+    ncalls = 3000 if tier == "quick" else 10000
     td = rcrun.tmpdir()
     jobs = []
     # Known finding (see known_findings.json): with DATA_SHARES=1 the masked AEAD keeps its plain state acquired
